@@ -400,6 +400,17 @@ class HtmlToAst(HTMLParser):
         super().feed(source)
         return self.struct.outmost
 
+    def parse_marked_section(self, i: int, report: int = 1) -> int:
+        """Parse a marked section, like ``<![CDATA[...]]>``.
+
+        The base class raises an ``AssertionError`` for a malformed section
+        (e.g. ``<![foo]>``); treat these as bogus comments, like browsers do.
+        """
+        try:
+            return super().parse_marked_section(i, report)
+        except AssertionError:
+            return self.parse_bogus_comment(i)
+
     def handle_starttag(self, name: str, attr):
         """When found an opening tag then nest it onto the tree."""
         if name in self.void_elements:
